@@ -147,7 +147,7 @@ func runC05(p *Prog, r *Report) {
 	if hdr := loopHeaderOf(ldAlloc.Block()); hdr != nil {
 		var sk []string
 		for _, x := range loopSkips(fn, isAppendOf("LayerDetails")) {
-			if !strings.Contains(x, "builtin.len(param") {
+			if !strings.HasPrefix(x, "range-end: param") {
 				sk = append(sk, x)
 			}
 		}
@@ -205,13 +205,14 @@ func runC05(p *Prog, r *Report) {
 		}
 		start, dec := false, false
 		for _, e := range ph.Edges {
+			// len(chainLayers)-2, however the subtraction is spelled (len-2, (len-1)-1, …)
+			if base, off, ok := linearOffset(e); ok && off == -2 {
+				if lc, ok := base.(*ssa.Call); ok && isCallTo(lc, "builtin", "", "len") && lc.Call.Args[0] == ssa.Value(layers) {
+					start = true
+				}
+			}
 			if bo, ok := e.(*ssa.BinOp); ok && bo.Op == token.SUB {
 				k, isK := constInt(bo.Y)
-				if isK && k == 2 {
-					if lc, ok := bo.X.(*ssa.Call); ok && isCallTo(lc, "builtin", "", "len") && lc.Call.Args[0] == ssa.Value(layers) {
-						start = true
-					}
-				}
 				if isK && k == 1 && bo.X == ssa.Value(ph) {
 					dec = true
 				}
@@ -522,12 +523,34 @@ func naturalLoop(hdr *ssa.BasicBlock) map[*ssa.BasicBlock]bool {
 // c05PresenceExits: the audited decision on which the search through an older view's packages
 // stops (everything else must move on to the next entry).
 var c05PresenceExits = []string{
-	"artifact/image/layerscanning/trace.areLocationsEqual(φ:[]*extractor.Package[(φ:int+1:int)].Locations,‹param1›.Packages[(φ:int+1:int)].Locations) && nil:github.com/google/osv-scalibr/extractor.Extractor != φ:[]*extractor.Package[(φ:int+1:int)].Extractor && purl.PackageURL.String(extractor.Extractor.ToPURL(φ:[]*extractor.Package[(φ:int+1:int)].Extractor,φ:[]*extractor.Package[(φ:int+1:int)])) == φ:string",
+	"artifact/image/layerscanning/trace.areLocationsEqual(φ:[]*extractor.Package[ι].Locations,param1.Packages[ι].Locations) && nil:github.com/google/osv-scalibr/extractor.Extractor != φ:[]*extractor.Package[ι].Extractor && purl.PackageURL.String(extractor.Extractor.ToPURL(φ:[]*extractor.Package[ι].Extractor,φ:[]*extractor.Package[ι])) == φ:string",
 }
 
 // c05Presence: the inner loop over the packages extracted from an older view leaves early only when
 // an entry with the same package URL and equal locations was found; entries that do not match —
 // whatever else they have in common with the traced package (e.g. the name) — never end the search.
+// linearOffset: v = base + off for a constant off, folding nested additions and subtractions of constants.
+func linearOffset(v ssa.Value) (base ssa.Value, off int64, ok bool) {
+	base = v
+	for d := 0; d < 6; d++ {
+		bo, isB := base.(*ssa.BinOp)
+		if !isB || (bo.Op != token.ADD && bo.Op != token.SUB) {
+			break
+		}
+		k, isK := constInt(bo.Y)
+		if !isK {
+			break
+		}
+		if bo.Op == token.ADD {
+			off += k
+		} else {
+			off -= k
+		}
+		base = bo.X
+	}
+	return base, off, base != v
+}
+
 func c05Presence(p *Prog, r *Report) {
 	fn := p.Func(tracePkg, "PopulateLayerDetails")
 	if fn == nil {
